@@ -20,6 +20,7 @@ func init() {
 		base(c)
 		if c.Replay == "" {
 			c15Rebind(c)
+			c15Recount(c)
 		}
 	})
 }
@@ -87,6 +88,99 @@ func c15Rebind(c *core.Ctx) {
 		default:
 			if d := run.CompareAll(exp, res.Delivered, false); d != nil {
 				c.Violation("c15:id-rebound:"+d.Kind, fmt.Sprintf("history %d (%s), table ids re-bound after a restart: %s (stream error: %s)", idx, cb, d, errStr(res.Err)), witnessOf(scn, h, s, nil))
+			}
+		}
+		s.Close()
+	}
+}
+
+// c15Recount: the same table id is announced again for the same table with
+// another column count (a column was added or dropped mid-stream). The mapper
+// would answer the new shape if it were asked again. The library may either
+// reject the rows (its mapper table disagrees with the table map) or ask again
+// and attribute them correctly; delivering them under the old column list is
+// the mis-attribution the property excludes.
+func c15Recount(c *core.Ctx) {
+	nh := c.N(96, 3000)
+	for idx := 0; idx < nh; idx++ {
+		if !c.Mine(idx) {
+			continue
+		}
+		r := c.Rng(core.StrID("c15recount"), uint64(idx))
+		cb := allCombos()[idx%24]
+		o := cb.hopts(r)
+		o.MaxTables, o.MaxCols, o.MaxRows, o.MaxStmts, o.MaxEvents = 1, 6, 2, 2, 2
+		o.NoJSON = true
+		b := gen.NewBuilder(r, o)
+		b.Tables = []*hist.Table{b.RandTable(uint64(700+r.Intn(50)), "dbr", "t", 2+r.Intn(5))}
+		kinds := []hist.UnitKind{hist.TxXID, hist.TxCommit, hist.AutoRows}
+		k1 := 1 + r.Intn(2)
+		for i := 0; i < k1; i++ {
+			b.Add(kinds[r.Intn(len(kinds))])
+		}
+		v1 := b.Tables[0]
+		v2 := &hist.Table{ID: v1.ID, DB: v1.DB, Name: v1.Name, Flags: v1.Flags, Cols: append([]hist.Column(nil), v1.Cols...)}
+		how := "column-added"
+		switch {
+		case len(v2.Cols) > 2 && idx%3 == 0:
+			v2.Cols = v2.Cols[:len(v2.Cols)-1]
+			how = "last-column-dropped"
+		case len(v2.Cols) > 2 && idx%3 == 1:
+			k := 1 + r.Intn(len(v2.Cols)-2)
+			v2.Cols = append(v2.Cols[:k:k], v2.Cols[k+1:]...)
+			how = "middle-column-dropped"
+		default:
+			extra := b.RandTable(1, "x", "x", 2).Cols[1]
+			extra.Name = "added"
+			v2.Cols = append(v2.Cols, extra)
+		}
+		if idx%4 == 3 {
+			b.Add(hist.Rotate)
+		}
+		b.Tables = []*hist.Table{v2}
+		for i := 0; i < 1+r.Intn(2); i++ {
+			b.Add(kinds[r.Intn(len(kinds))])
+		}
+		h := b.H
+		l := h.Build()
+		start := hist.Pos{File: h.FirstFile, Off: 4}
+		exp := hist.Expect(h, l, start)
+		s, err := run.NewSession(l, []*hist.Table{v1}, 1516, start, idx%3 != 0)
+		if err != nil {
+			c.Inconclusive("cannot start master: " + err.Error())
+			return
+		}
+		for _, g := range run.LibGoroutines(nil) {
+			s.Abandon(g.ID)
+		}
+		s.Mapper.Versions = map[[2]string][]*hist.Table{{v1.DB, v1.Name}: {v1, v2}}
+		s.M.SetDefault(&sim.Script{End: sim.EndEOF})
+		res := s.Attempt(run.NoFaults(), nil, maxWait)
+		c.Case(core.HashU64(layoutHash(l), 1516), true)
+		c.Cell("stream:id-reannounced-with-other-column-count:" + how)
+		scn := map[string]interface{}{"mode": "recount", "hist": idx, "combo": cb.String(), "how": how}
+		switch {
+		case res.Verdict != run.Returned:
+			c.Cell("stream-not-returned(reported under C05)")
+		case res.Panic != "":
+			c.Violation("c15:recount:panic", fmt.Sprintf("history %d (%s): Stream panicked: %s", idx, how, res.Panic), witnessOf(scn, h, s, nil))
+		case res.Err != nil:
+			// rejected: what was delivered before must be right, and must not
+			// include anything of the new shape under the old column list
+			want := exp
+			if len(res.Delivered) < len(want) {
+				want = want[:len(res.Delivered)]
+			}
+			if d := run.CompareAll(want, res.Delivered, false); d != nil {
+				c.Violation("c15:recount:"+d.Kind, fmt.Sprintf("history %d (%s), id re-announced with another column count, stream rejected (%s) but: %s", idx, how, errStr(res.Err), d), witnessOf(scn, h, s, nil))
+			} else {
+				c.Cell("recount:rejected")
+			}
+		default:
+			if d := run.CompareAll(exp, res.Delivered, false); d != nil {
+				c.Violation("c15:recount:"+d.Kind, fmt.Sprintf("history %d (%s), id re-announced with another column count, stream went on: %s", idx, how, d), witnessOf(scn, h, s, nil))
+			} else {
+				c.Cell("recount:attributed-to-the-new-shape")
 			}
 		}
 		s.Close()
